@@ -12,7 +12,7 @@ MO, TU, WE, TH, FR, SA, SU = range(7)
 
 # menus of non-default values, simplest first; weekdays are (weekday, n) pairs
 MENUS = collections.OrderedDict([
-    ('interval', [2, 3, 7]),
+    ('interval', [2, 3, 7, 12, 24, 60]),
     ('wkst', [1, 3, 6]),
     ('bysetpos', [1, -1, (2, -2), 3]),
     ('bymonth', [1, (2, 12), (4, 9), 2]),
